@@ -28,6 +28,7 @@ ASSUMPTIONS = [
 ]
 FLOORS = {"quick": {"evolve_roundtrips": 800, "interleavings": 2500},
           "thorough": {"evolve_roundtrips": 50000, "interleavings": 80000}}
+ANCHORS = ['load_fields', 'Message.load', 'Message.dump']
 CONTRACTS = ["bytes"]
 
 
